@@ -191,6 +191,62 @@ APIS = ('send', 'disconnect-sid', 'disconnect-all')
 STATES = c12.SIDKINDS[1:] + ('no-sessions',)
 
 
+AE_SPELLINGS = ('GZIP', 'Deflate', 'gzip;q=1.0', 'GZIP, br', 'x-gzip', '*', 'identity;q=0', 'gzip,,deflate', ' , ', 'gzip', 'DEFLATE , GZIP',
+                'gzip\t', '')
+AE_REQUESTS = ('open', 'poll', 'post', 'bad-sid', 'put', 'options')
+
+
+def _accept_encoding(fl, ai, ki):
+    """Legal but unusual spellings of the Accept-Encoding header on a server that compresses every response it may
+    (threshold 0): every request still completes with one well-formed response."""
+    from vf.props.common import mk
+    sut = mk(fl, async_handlers=False, http_compression=True, compression_threshold=0)
+    try:
+        hdr = {'Accept-Encoding': AE_SPELLINGS[ai]}
+        kind = AE_REQUESTS[ki]
+        sut.open('polling')
+        sut.settle()
+        sid = sut.sids()[0]
+        sut.app_send(sid, 'x' * 40)
+        sut.settle()
+        if kind == 'open':
+            r = sut.open('polling', headers=hdr)
+        elif kind == 'poll':
+            r = sut.get(sid, hdr)
+        elif kind == 'post':
+            r = sut.post(sid, '4hello', headers=hdr)
+        elif kind == 'bad-sid':
+            r = sut.request('GET', 'transport=polling&sid=' + 'n' * 60, hdr)
+        elif kind == 'put':
+            r = sut.request('PUT', 'transport=polling&sid=' + sid, hdr)
+        else:
+            r = sut.request('OPTIONS', 'transport=polling&sid=' + sid, hdr)
+        sut.settle()
+        state = dict(flavour=sut.flavour, request=kind, accept_encoding=AE_SPELLINGS[ai])
+        desc = '%s with Accept-Encoding %r' % (kind, AE_SPELLINGS[ai])
+        if not r.done:
+            return fail(PROP, 'REQUEST-COMPLETES', '%s not finished (blocked in %s)' % (desc, r.task.what), **state)
+        if r.exc is not None:
+            return fail(PROP, 'EXCEPTION-ESCAPES', '%s: %s: %s' % (desc, type(r.exc).__name__, r.exc), **state)
+        m = _wsgi_monitor(sut, r) if fl == 0 else _asgi_http_monitor(sut, r)
+        if m:
+            return fail(PROP, 'GATEWAY-FORM', '%s: %s' % (desc, m), **state)
+        if sut.status(r) not in (200, 400, 401, 405):
+            return fail(PROP, 'STATUS-SET', '%s answered %r' % (desc, sut.status(r)), **state)
+        return ''
+    finally:
+        sut.close()
+
+
+@cond(quick=dict(timeout=120), thorough=dict(timeout=300))
+def accept_encoding_spellings(fl: int, ai: int, ki: int) -> str:
+    """
+    pre: 0 <= fl <= 1 and 0 <= ai < len(AE_SPELLINGS) and 0 <= ki < len(AE_REQUESTS)
+    post: _ == ''
+    """
+    return verdict(untraced(_accept_encoding, fl, ai, ki))
+
+
 def _api(fl, ai, si, pending, client_gone):
     api, sk = APIS[ai], STATES[si]
     if sk == 'no-sessions':
